@@ -14,21 +14,28 @@ open PV.Reader PV.Spec.Records
 theorem read_mode_records (delim : UInt8) (stripCr : Bool) (cap0 : Nat) (hcap : 0 < cap0)
     (src : List UInt8) (sched : List Nat) :
     recordsRead delim stripCr cap0 src sched = some (splitRecords delim stripCr src) := by
-  sorry
+  obtain ⟨s', e, _⟩ := PV.Lemmas.Reader.readAll_read delim stripCr cap0 hcap src sched
+  simp [recordsRead, e]
 
 /-- mmap mode (regular file at any start offset): same, for every page size, every initial
     window that is a positive multiple of the page size, every start offset inside the file. -/
 theorem mmap_mode_records (delim : UInt8) (stripCr : Bool) (file : List UInt8) (page cap0 start : Nat)
     (hpage : 0 < page) (hcap : 0 < cap0) (hdvd : page ∣ cap0) (hstart : start ≤ file.length) :
     recordsMmap delim stripCr file page cap0 start = some (splitRecords delim stripCr (file.drop start)) := by
-  sorry
+  obtain ⟨s', e, _⟩ := PV.Lemmas.Reader.readAll_mmap delim stripCr file page cap0 start hpage hcap hdvd hstart
+  simp [recordsMmap, e]
 
 /-- after end of input has been reported once it is reported on every further call (read mode). -/
 theorem eof_stable_read (delim : UInt8) (stripCr : Bool) (cap0 : Nat) (hcap : 0 < cap0)
     (src : List UInt8) (sched : List Nat) (ls : List (List UInt8)) (s : RState)
     (h : readAll readBacking delim stripCr (src.length + 2) (src.length + 2) (initRead cap0 src sched) = some (ls, s)) :
     ∀ fuel, 0 < fuel → ∃ s', readLine readBacking delim stripCr fuel 0 s = .eof s' := by
-  sorry
+  obtain ⟨s', e, e1, e2⟩ := PV.Lemmas.Reader.readAll_read delim stripCr cap0 hcap src sched
+  rw [e] at h
+  obtain rfl : s' = s := by injection h with h; exact (Prod.mk.inj h).2
+  intro fuel hf
+  obtain ⟨f, rfl⟩ : ∃ f, fuel = f + 1 := ⟨fuel - 1, by omega⟩
+  exact ⟨s', PV.Lemmas.Reader.readLine_at_eof readBacking delim stripCr f s' e1 e2⟩
 
 /-- … and in mmap mode. -/
 theorem eof_stable_mmap (delim : UInt8) (stripCr : Bool) (file : List UInt8) (page cap0 start : Nat)
@@ -36,13 +43,19 @@ theorem eof_stable_mmap (delim : UInt8) (stripCr : Bool) (file : List UInt8) (pa
     (ls : List (List UInt8)) (s : MState)
     (h : readAll mmapBacking delim stripCr (file.length + 2) (file.length + 2) (initMmap file page cap0 start) = some (ls, s)) :
     ∀ fuel, 0 < fuel → ∃ s', readLine mmapBacking delim stripCr fuel 0 s = .eof s' := by
-  sorry
+  obtain ⟨s', e, e1, e2⟩ := PV.Lemmas.Reader.readAll_mmap delim stripCr file page cap0 start hpage hcap hdvd hstart
+  rw [e] at h
+  obtain rfl : s' = s := by injection h with h; exact (Prod.mk.inj h).2
+  intro fuel hf
+  obtain ⟨f, rfl⟩ : ∃ f, fuel = f + 1 := ⟨fuel - 1, by omega⟩
+  exact ⟨s', PV.Lemmas.Reader.readLine_at_eof mmapBacking delim stripCr f s' e1 e2⟩
 
 /-- the specification itself: records re-joined with the delimiter give back the input when no
     carriage return is stripped and the input ends with the delimiter (no byte lost). -/
 theorem splitRecords_lossless (delim : UInt8) (bs : List UInt8) :
     (splitRecords delim false (bs ++ [delim])).flatMap (· ++ [delim]) = bs ++ [delim] := by
-  sorry
+  have := PV.Lemmas.Reader.splitGo_lossless delim bs []
+  simpa [splitRecords] using this
 
 -- non-vacuity
 example : recordsRead 10 true 4 [97, 13, 10, 98, 10, 10, 99] [1, 2, 1, 3] = some [[97], [98], [], [99]] := by
